@@ -28,7 +28,8 @@ def run_lemmas(lemmas, tier, seed):
             models.attach(it)
             for n, f in l.obligations(it):
                 ob = Obligation(f'lemma:{l.name}#{n}', st.pc, f, 0)
-                v = discharge(ob, axioms, timeout_s=20 if tier == 'quick' else 120, seed=seed, both=(tier == 'thorough'))
+                v = discharge(ob, axioms, timeout_s=20 if tier == 'quick' else 120, seed=seed, both=(tier == 'thorough'),
+                              cvc5_first=getattr(l, 'cvc5_first', False))
                 r['verdicts'].append(v.as_dict())
             r['assumptions'] = sorted(st.assumptions_used)
         except Exception:
